@@ -107,7 +107,13 @@ macro_rules! rdata_enum {
                     return Err(crate::SimpleDnsError::InsufficientData);
                 }
 
-                parse_rdata(&data[..*position + rdatalen], position, rdatatype)
+                let end = *position + rdatalen;
+                let rdata = parse_rdata(&data[..end], position, rdatatype)?;
+
+                // the next entry starts right after RDLENGTH bytes, even when the typed content is shorter
+                *position = end;
+
+                Ok(rdata)
             }
 
             fn write_to<T: std::io::Write>(
